@@ -134,6 +134,14 @@ FIXED = [
     ("`ifndef UNDEF_\n`else\n`begin_keywords \"1364-1995\"\n`endif\nmodule m; reg signed [3:0] x; wire logic; endmodule\n", False),
     ("`ifdef UNDEF_\n`begin_keywords \"1364-2001\"\n`begin_keywords \"1364-2001\"\n`endif\nmodule m; endmodule\nmodule n; wire logic; endmodule\n", False),
     ("`define OPENS `begin_keywords \"1364-2001\"\nmodule m; wire logic; endmodule\n", False),
+    # the names of compiler directives are directives under every set (fixed: `include was refused where include is not reserved)
+    ("`begin_keywords \"1364-1995\"\n`define W 1\n`ifdef W\n`timescale 1ns/1ps\n`endif\n`celldefine\n`undef W\nmodule m; reg include; endmodule\n`endcelldefine\n`end_keywords\n", True),
+    ("`begin_keywords \"1364-2001-noconfig\"\n`line 3 \"f.v\" 0\n`default_nettype none\nmodule m; wire config, include, library; endmodule\n`resetall\n`end_keywords\n", True),
+    # the set in force where the WORD stands decides, not the one a directive behind it selects
+    ("module m;\nendmodule : logic\n`begin_keywords \"1364-2001\"\nmodule n; endmodule\n`end_keywords\n", False),
+    ("`begin_keywords \"1364-2001\"\nmodule logic;\nendmodule : logic\n`end_keywords\n", True),
+    ("`begin_keywords \"1364-2001\"\nmodule m; wire logic\n`end_keywords\n; endmodule\n", True),
+    ("`begin_keywords \"1364-2001\"\n`begin_keywords \"1800-2017\"\nmodule m; endmodule : logic\n`end_keywords\n`end_keywords\n", False),
     ("`resetall\nmodule module; endmodule\n", False), ("`define X 1\nmodule m; wire wire; endmodule\n", False),
     ("`timescale 1ns/1ps\n`celldefine\nmodule m; reg always; endmodule\n", False),
 ]
